@@ -25,6 +25,15 @@
 (*  * Quadratic / Heule   the two at-most-one encodings.                   *)
 (*  * Satisfiable  a small DPLL over sets of clauses, so that TLC itself   *)
 (*                 can project a modelled CNF onto the user's variables.   *)
+(*  * UnitProp     unit propagation on a CNF, and what it means for it to  *)
+(*                 be COMPLETE for a constraint (arc consistency): under   *)
+(*                 every partial assignment of the user's variables it     *)
+(*                 finds the conflict if no solution is left, and derives  *)
+(*                 every literal all remaining solutions agree on.         *)
+(*                 getrobdd's docstring says the plain construction has    *)
+(*                 this and the coefficient decomposition has not; TLC     *)
+(*                 checks both statements (UnitPropagationDetects /        *)
+(*                 UnitPropagationComplete, cfgs Robdd_up_*.cfg).          *)
 (*                                                                         *)
 (* CNF variables are integers: user variable v -> UVar(v) in 1..NV, the    *)
 (* Tseitin variable of node n -> 100+n, Heule's fresh variable j -> 200+j; *)
@@ -159,12 +168,55 @@ UnitsOf(a) == { {IF BitOf(v, a) = 1 THEN UVar(v) ELSE -UVar(v)} : v \in Vars }
 Proj(cnf) == { a \in Assigns : Satisfiable(cnf \cup UnitsOf(a)) }
 
 (***************************************************************************)
+(* Unit propagation and arc consistency                                    *)
+(* A partial assignment is a sequence rs of <<variable, value>> pairs,     *)
+(* value 0 / 1, or 2 = unassigned; variables not listed are unassigned.    *)
+(***************************************************************************)
+AssignAll(cs, L) == { c \ { -x : x \in L } : c \in { d \in cs : d \cap L = {} } }
+RECURSIVE UnitProp(_, _)
+UnitProp(cs, lits) ==          \* -> [conflict, lits]: all literals derived (the given units included)
+  IF {} \in cs THEN [conflict |-> TRUE, lits |-> lits]
+  ELSE LET L == UNION { c \in cs : Cardinality(c) = 1 } IN
+       IF L = {} THEN [conflict |-> FALSE, lits |-> lits]
+       ELSE IF \E x \in L : -x \in L THEN [conflict |-> TRUE, lits |-> lits \cup L]
+       ELSE UnitProp(AssignAll(cs, L), lits \cup L)
+
+RhoVal(rs, v) == IF \E i \in DOMAIN rs : rs[i][1] = v THEN rs[CHOOSE i \in DOMAIN rs : rs[i][1] = v][2] ELSE 2
+RhoLits(rs) == { IF RhoVal(rs, v) = 1 THEN UVar(v) ELSE -UVar(v) : v \in { w \in Vars : RhoVal(rs, w) # 2 } }
+Extends(a, rs) == \A v \in Vars : RhoVal(rs, v) = 2 \/ BitOf(v, a) = RhoVal(rs, v)
+\* every partial assignment of the user variables, as such a sequence
+PartialAssigns == { [i \in 1..NV |-> <<VarList[i], f[i]>>] : f \in [1..NV -> {0, 1, 2}] }
+
+\* what unit propagation yields on the USER variables: conflict?, and the literals newly implied
+UPOn(cnf, rs) ==
+  LET R == UnitProp(cnf \cup { {x} : x \in RhoLits(rs) }, {})
+  IN [conflict |-> R.conflict,
+      implied |-> IF R.conflict THEN {} ELSE { x \in R.lits : x >= -NV /\ x <= NV } \ RhoLits(rs)]
+\* the literals on unassigned variables that every solution in S compatible with rs agrees on
+Entailed(S, rs) ==
+  LET Sr == { a \in S : Extends(a, rs) } IN
+  { x \in { UVar(v) : v \in Vars } \cup { -UVar(v) : v \in Vars } :
+      LET v == VarList[IF x > 0 THEN x ELSE -x] IN
+      RhoVal(rs, v) = 2 /\ \A a \in Sr : BitOf(v, a) = (IF x > 0 THEN 1 ELSE 0) }
+\* propagation never claims more than is true (a consequence of the CNF being exact)
+UPSoundOn(cnf, S, rs) ==
+  LET Sr == { a \in S : Extends(a, rs) }  U == UPOn(cnf, rs) IN
+  (U.conflict => Sr = {}) /\ (Sr # {} => U.implied \subseteq Entailed(S, rs))
+\* weak form: an assignment that cannot be completed is refuted by propagation alone
+UPDetectsOn(cnf, S, rs) == ({ a \in S : Extends(a, rs) } = {}) => UPOn(cnf, rs).conflict
+\* arc consistency: refutes, and derives every entailed literal
+UPCompleteOn(cnf, S, rs) ==
+  LET Sr == { a \in S : Extends(a, rs) }  U == UPOn(cnf, rs) IN
+  IF Sr = {} THEN U.conflict ELSE Entailed(S, rs) \subseteq U.implied
+
+(***************************************************************************)
 (* State machine of this module: build inequalities into one store         *)
 (***************************************************************************)
 CONSTANTS RTerms,    \* max number of terms of a generated inequality
           RCoef,     \* coefficients 1..RCoef
           RBound,    \* bounds 1..RBound
-          RBuilds    \* how many inequalities are built into the same store
+          RBuilds,   \* how many inequalities are built into the same store
+          RDecs      \* constructions tried: subset of BOOLEAN (TRUE = coefficient decomposition)
 
 VARIABLES store, root, lastq, lastdec, nb
 rvars == <<store, root, lastq, lastdec, nb>>
@@ -175,7 +227,7 @@ TermLists == UNION { { SortDesc(f) : f \in { g \in [1..n -> Vars \X {0, 1} \X (1
                                             \A i, j \in 1..n : g[i][1] = g[j][1] => i = j } } : n \in 1..RTerms }
 RInit == Init /\ store = <<>> /\ root = 1 /\ lastq = [lhs |-> Empty, rhs |-> 0, op |-> ">="] /\ lastdec = FALSE /\ nb = 0
 BuildOne == /\ nb < RBuilds
-            /\ \E ts \in TermLists, b \in 1..RBound, dec \in BOOLEAN :
+            /\ \E ts \in TermLists, b \in 1..RBound, dec \in RDecs :
                  LET q == [lhs |-> [c |-> 0, t |-> ts], rhs |-> b, op |-> ">="]
                      B == GetRobdd(q, dec, store)
                  IN store' = B.store /\ root' = B.id /\ lastq' = q /\ lastdec' = dec
@@ -190,6 +242,13 @@ NodeSem == \A a \in Assigns : (NodeFun(store, root, a) = 1) <=> Holds(lastq, a)
 \* asserting the root of the codified diagram leaves exactly the satisfying assignments
 TseitinExact == LET C == Codify(store, root, {}) IN
                 Proj(C.cls \cup {{NodeVar(root)}}) = { a \in Assigns : Holds(lastq, a) }
+\* Propagation strength of the codified diagram (one inequality, root asserted).  Checked separately for
+\* RDecs = {FALSE} and RDecs = {TRUE} (Robdd_up_*.cfg); see the report in the C07 evidence for which hold.
+DiagramCnf == Codify(store, root, {}).cls \cup {{NodeVar(root)}}
+DiagramSols == { a \in Assigns : Holds(lastq, a) }
+UnitPropagationSound == \A rs \in PartialAssigns : UPSoundOn(DiagramCnf, DiagramSols, rs)
+UnitPropagationDetects == \A rs \in PartialAssigns : UPDetectsOn(DiagramCnf, DiagramSols, rs)
+UnitPropagationComplete == \A rs \in PartialAssigns : UPCompleteOn(DiagramCnf, DiagramSols, rs)
 \* a manager that has codified other diagrams before (shared nodes are skipped) is still exact:
 \* checked in SatLayer.tla, where several constraints are posted to one manager.
 =============================================================================
